@@ -127,14 +127,15 @@ def stated_count(ctx):
     asserts = [n for n in ast.walk(f.node) if isinstance(n, ast.Assert)]
     ok = False
     from .. import wiring as WR
-    cnt = WR.count_expr_text(P)
-    if cnt is None:
+    cnts = WR.grant_counters(P)
+    if not cnts:
         raise AnalysisError('get_header_dict: the expression counting the located arrays was not recognised')
     for a in asserts:
         t = a.test
         sides = {U(t.left), U(t.comparators[0])} if isinstance(t, ast.Compare) and len(t.ops) == 1 and \
             isinstance(t.ops[0], ast.Eq) else set()
-        if cnt in sides and (sides - {cnt}) and (sides - {cnt}).pop() in f.params:
+        cnt = next(iter(sides & cnts), None)
+        if cnt is not None and (sides - {cnt}) and (sides - {cnt}).pop() in f.params:
             ok = True
             # it must follow the loop that creates the offsets and precede the return
             rets = [r for r in ast.walk(f.node) if isinstance(r, ast.Return)]
